@@ -17,7 +17,7 @@ import (
 	"verif/engine/interp"
 )
 
-const verifDir = "/verif"
+var verifDir = envOr("VERIF_DIR", "/verif")
 
 type knownFinding struct {
 	Property string `json:"property"`
